@@ -41,8 +41,8 @@ func runC11(r *core.Run) {
 	defer rxOwnership(r, "R11.12")
 	r.Rule("R11.13", "every message and every environment change reaches every hook and the collected error: no early return in front of the loop / the append", 3, false)
 	defer func() {
-	r.Rule("R11.14", "a packet size change is applied to the framing of the next message: EOM from the LIVE body size (R01.2)", 3, false)
-	defer c01SendPacket(r, "R11.14")
+		r.Rule("R11.14", "a packet size change is applied to the framing of the next message: EOM from the LIVE body size (R01.2)", 3, false)
+		defer c01SendPacket(r, "R11.14")
 		p := r.Prog
 		noEarlyReturn(r, "R11.13", p.Func("tds", "EEDError", "Add"), "EEDError.Add appends unconditionally", "a message can be dropped before it is appended (de-duplication on number/procedure/line drops different messages): the returned error does not carry all messages")
 		noEarlyReturn(r, "R11.13", p.Func("tds", "Channel", "callEnvChangeHooks"), "callEnvChangeHooks calls the hooks for every change", "an environment change can return before the hooks are called (e.g. for types outside the documented ones): it is swallowed by the library and reported to nobody")
